@@ -16,6 +16,6 @@ if [ ! -x "$BIN" ] || [ -n "$(find tool -newer "$BIN" -name '*.go' -print -quit 
   (cd tool && go build -o ../bin/ivgsa ./cmd/ivgsa) || { echo "INFRA cannot build ivgsa"; exit 2; }
 fi
 if [ "$TIER" = thorough ]; then
-  exec "$BIN" check -property "$ID" -tier thorough -verif "$(pwd)"
+  exec ./scripts/thorough.sh "$ID"
 fi
 exec "$BIN" check -property "$ID" -tier quick -verif "$(pwd)"
